@@ -323,7 +323,8 @@ func (g *xgen) boolE(d int) *E {
 		}
 		return g.fallbackBool(g.deco(Bin(op, g.strAtom(), Var("ws")), 2))
 	case 5:
-		pat := Str("/" + rapid.SampledFrom([]string{"a", "ab", "ell", "H", "zz"}).Draw(g.t, "pat") + "/")
+		// the same pattern occurs with and without the case-insensitive flag
+		pat := Str("/" + rapid.SampledFrom([]string{"a", "ab", "ell", "H", "zz", "A", "ELL", "h"}).Draw(g.t, "pat") + rapid.SampledFrom([]string{"/", "/", "/i"}).Draw(g.t, "patflag"))
 		return g.fallbackBool(g.deco(Bin("matches", g.strE(d-1), pat), 2))
 	case 6, 7:
 		return g.fallbackBool(g.deco(Bin("and", g.anyE(d-1), g.anyE(d-1)), 2))
